@@ -369,6 +369,12 @@ def main():
         return 2
     cfg = PROPS[prop]
     tier = "thorough" if a.tier == "thorough" else "quick"
+    # one run of a property's check at a time (the regenerated Gen/<Cxx>.lean, the harness binary and the evidence file are
+    # per property): a second run waits here; the lock is released when this process exits
+    os.makedirs(BUILD, exist_ok=True)
+    global _PROP_LOCK
+    _PROP_LOCK = open(os.path.join(BUILD, "check_%s.lock" % prop), "w")
+    fcntl.flock(_PROP_LOCK, fcntl.LOCK_EX)
     t0 = time.time()
     logs = []
 
